@@ -421,9 +421,9 @@ class _AdversarialFairness(BaseEstimator):
             Array-like containing the sensitive features of the
             training data.
         """
-        first_call = not hasattr(self, "classes_")
-
-        X, y, A = self._validate_input(X, y, sensitive_features, first_call)
+        # a call to fit always (re)initializes; with warm_start=True the set-up reuses
+        # the existing models
+        X, y, A = self._validate_input(X, y, sensitive_features, True)
 
         # Not checked in __setup, because partial_fit may not require it.
         if self.epochs == -1 and self.max_iter == -1:
